@@ -157,7 +157,8 @@ Proof. unfold escape_char. destruct (in_escape_class z); [now exists [c_bs]|now 
 (** the command word *)
 Definition no_env (cmd : str) : bool := match split_env cmd with None => true | Some _ => false end.
 Definition cmd_word (cmd : str) : bool :=
-  plain_word cmd && negb (forallb arith_body cmd) && no_env cmd && l_plain cmd && first_nonws cmd.
+  plain_word cmd && negb (forallb arith_body cmd) && no_env cmd && l_plain cmd && first_nonws cmd &&
+  literal_token (TNone, cmd).
 
 (** * Statement pieces *)
 Inductive qctx := Unq | InSq | InDq.
@@ -250,9 +251,9 @@ Proof. destruct a; [congruence|reflexivity]. Qed.
 
 Lemma cmd_word_facts cmd : cmd_word cmd = true ->
   plain_word cmd = true /\ forallb arith_body cmd = false /\ split_env cmd = None /\ l_plain cmd = true /\
-  first_nonws cmd = true /\ cmd <> [].
+  first_nonws cmd = true /\ cmd <> [] /\ literal_token (TNone, cmd) = true.
 Proof.
-  unfold cmd_word, no_env. intros H. do 4 (apply andb_true_iff in H as [H ?]).
+  unfold cmd_word, no_env. intros H. do 5 (apply andb_true_iff in H as [H ?]).
   repeat split; try assumption.
   - now apply negb_true_false.
   - destruct (split_env cmd); [discriminate|reflexivity].
@@ -267,7 +268,7 @@ Lemma quoted_round_trip expand cmd (a : qarg) ws_end :
   run_line expand (cmd ++ c_space :: render_qarg a ++ ws_end) = Some [cmd; qarg_text a].
 Proof.
   intros Hg Hcmd Hwf Hat Hlit Hws.
-  destruct (cmd_word_facts _ Hcmd) as (Hp & Hna & Hne & Hl & Hf & Hnn).
+  destruct (cmd_word_facts _ Hcmd) as (Hp & Hna & Hne & Hl & Hf & Hnn & _).
   set (at_ := match a with QSq t => ASq t | QDq t => ADq t end) in *.
   set (seg := plain_atoms cmd ++ [APlain c_space; at_]).
   assert (Er : render_seg seg = cmd ++ c_space :: render_qarg a).
@@ -303,7 +304,7 @@ Lemma escaped_round_trip expand cmd arg ws_end :
   run_line expand (cmd ++ c_space :: escape_path arg ++ ws_end) = Some [cmd; arg].
 Proof.
   intros Hg Hcmd Hnn Hend Hamp Hlit Hws.
-  destruct (cmd_word_facts _ Hcmd) as (Hp & Hna & Hne & Hl & Hf & Hcn).
+  destruct (cmd_word_facts _ Hcmd) as (Hp & Hna & Hne & Hl & Hf & Hcn & _).
   set (seg := plain_atoms cmd ++ APlain c_space :: esc_atoms arg).
   assert (Er : render_seg seg = cmd ++ c_space :: escape_path arg).
   { unfold seg. rewrite render_seg_app, render_plain_atoms.
